@@ -12,6 +12,9 @@ operator means for the representation the translator chose.
                                                translator for comparisons, `/`, `%`, `>>`,
                                                conversions)
   Go `bool`                      ↦ `Bool`     (conditions are emitted as decidable `Prop`s)
+  Go slice (parameterised)       ↦ `List`     (`len` ↦ `List.length`, `s[i]` ↦ `index?`,
+                                               `for .. range s` ↦ structural recursion)
+  Go `error`                     ↦ `Option Cause` (`Cause`: the generated inductive of sentinels)
 
 A Go shift by a count ≥ the width yields 0 (or the sign for a signed `>>`), which is what the
 `BitVec` shifts by a `Nat` do.  A negative shift count and a division by zero panic in Go; the
@@ -35,5 +38,23 @@ def intOr (a b : Int) : Int := (BitVec.ofInt 64 a ||| BitVec.ofInt 64 b).toInt
 def intXor (a b : Int) : Int := (BitVec.ofInt 64 a ^^^ BitVec.ofInt 64 b).toInt
 def intAndNot (a b : Int) : Int := (BitVec.ofInt 64 a &&& ~~~ BitVec.ofInt 64 b).toInt
 def intNot (a : Int) : Int := (~~~ BitVec.ofInt 64 a).toInt
+
+/-- Result of a kernel that contains an index expression `s[i]`: `panic` when an index is out
+    of range (the Go run-time panic), otherwise the value. -/
+inductive Res (α : Type) where
+  | panic
+  | val (a : α)
+  deriving Repr, DecidableEq
+
+/-- `s[i]` for a slice `s` (↦ `List`) and a Go `int` index: `none` when out of range. -/
+def index? {α : Type} (l : List α) (i : Int) : Option α :=
+  if i < 0 then none else l[i.toNat]?
+
+/-- Element type for a parameterised collection whose elements are observed through an entity
+    id and an integer index only (the values of a `SignalEnum`). -/
+structure IdIndex where
+  id : Nat
+  index : Int
+  deriving Repr, DecidableEq, Inhabited
 
 end Acme.GoSem
